@@ -167,11 +167,12 @@ class Pi4QPSKDemodulator(BaseDemodulator):
 
     _use_rotated: torch.Tensor  # Type annotation for the buffer
 
-    def __init__(self, soft_output: bool = False, *args, **kwargs) -> None:
+    def __init__(self, soft_output: bool = False, gray_coded: bool = True, *args, **kwargs) -> None:
         """Initialize the π/4-QPSK demodulator.
 
         Args:
             soft_output: Whether to output soft LLR values even when noise_var is not provided
+            gray_coded: Whether the modulator uses the Gray-coded point order (default: True)
             *args: Variable length argument list.
             **kwargs: Arbitrary keyword arguments.
         """
@@ -180,7 +181,8 @@ class Pi4QPSKDemodulator(BaseDemodulator):
         self.soft_output = soft_output
 
         # Create reference modulator to access constellations
-        self.modulator = Pi4QPSKModulator()
+        self.gray_coded = gray_coded
+        self.modulator = Pi4QPSKModulator(gray_coded=gray_coded)
 
         # Keep track of which constellation to use for demodulation
         self.register_buffer("_use_rotated", torch.tensor(False))
